@@ -1,4 +1,5 @@
 import Driver.Proto
+import RedactVerif.Model.Format
 /-
 Line-protocol driver: one case per input line, one answer per output line.
 Imports the executable model only (core Lean, no Mathlib), so it links as a
@@ -36,6 +37,13 @@ def parseOverride (s : String) : Option Override :=
   | "u" => some .ovUnsafe
   | _ => none
 
+def optNat (s : String) : Option (Option Nat) :=
+  if s == "-" then some none else s.toNat?.map some
+
+def fstateStr (s : FState) : String :=
+  let o := fun (x : Option Nat) => match x with | some n => toString n | none => "-"
+  s!"{boolStr s.plus}{boolStr s.minus}{boolStr s.sharp}{boolStr s.space}{boolStr s.zero} {o s.wid} {o s.prec} {s.verb}"
+
 def answer (line : String) : String :=
   match (line.splitOn " ").filter (· ≠ "") with
   | ["strip", h] => match fromHex h with | some l => toHex (stripMarkers l) | none => bad
@@ -50,6 +58,20 @@ def answer (line : String) : String :=
     | some sl, some nl, some st, some l =>
       if sl ≤ l.length then toHex (escapeBytesAt l sl nl st) else bad
     | _, _, _, _ => bad
+  | ["mf", fl, w, p, v] =>
+    match fromHex fl, optNat w, optNat p, v.toNat? with
+    | some fl, some w, some p, some v =>
+      let st : FState := { plus := fl.contains 0x2B, minus := fl.contains 0x2D, sharp := fl.contains 0x23,
+                           space := fl.contains 0x20, zero := fl.contains 0x30, wid := w, prec := p, verb := v }
+      let (jv, f) := makeFormat st
+      boolStr jv ++ " " ++ toHex f
+    | _, _, _, _ => bad
+  | ["pd", rule, h] =>
+    match parseBool rule, fromHex h with
+    | some rule, some f => match parseDirective rule f with
+      | some st => fstateStr st
+      | none => "none"
+    | _, _ => bad
   | "buf" :: toks => runOps "buf" {} toks
   | "bld" :: toks => runOps "bld" {} toks
   | "adp" :: ov :: md :: toks =>
